@@ -118,6 +118,17 @@ func init() {
 		NoDeterminism: false,
 	})
 	register(&spec{
+		ID: "C36", Title: "The import cache key changes exactly when package sources change", Level: "exploration",
+		Harness: []harnessCopy{{"c36", "tool"}},
+		TestPkg: "tool", TestName: "TestZSimC36",
+		QuickRuns: 4000, ThoroughRuns: 400000, QuickBudget: 4 * time.Minute, ThoroughBudget: 40 * time.Minute,
+		Chunk: 250,
+		Rule: "each run draws a history of 4-29 (thorough: 4-60) operations on a module package directory — create, same-size rewrite, append, truncate, touch, rename, delete, mkdir, file in a sub-directory — over 10 compilable names (.go .xgo .gop .gox incl. dot-files, _test files, gop_autogen.go) and 10 irrelevant ones (underscore-prefixed, other extensions, backup suffixes), each stamped from a simulated clock that advances by 0, 1ns, sub-second, seconds, an hour or jumps backwards, truncated to a per-run mtime granularity (1ns, 1us, 1s, 2s); after every step PkgHash is recomputed and compared with the reference projection read back from the directory. Non-trivial = at least 3 judged steps of which at least 1 changed the projection; distinct = distinct (step/hash log, workload hash) pairs",
+		Real: []string{"tool/imp.go (NewImporter, Importer.PkgHash, dirHash, canCl) compiled from the working tree (not instrumented: sequential)", "goplus/mod module lookup, a real directory on tmpfs"},
+		Stubbed: []string{"the clock that stamps files (os.Chtimes from a simulated clock with granularity knob)", "the history of file-system operations (generated)"},
+		Assumptions: []string{"regular files only: no symlinks, devices, or names with control characters", "class-file extensions registered through go.mod are not exercised (the module registers none)", "only consecutive states are compared, as the statement says"},
+	})
+	register(&spec{
 		ID: "C26", Title: "xgo fmt never loses a file at any crash point and keeps its mode", Level: "fault_enumeration",
 		Instrument: map[string]simgen.Options{xgo + "/cmd/internal/gopfmt": {Swap: map[string]string{"os": simgen.SimosPath}}},
 		Harness:    []harnessCopy{{"c26", "cmd/internal/gopfmt"}},
